@@ -119,6 +119,8 @@ def mon_c15(case_line, trace):
     chunks = ev_chunks(evs)
     inbound = b''.join(chunks)
     wire = ev_wire(evs)
+    if outcome == 'err:attack' and attack_sim([len(c) for c in chunks]) is None:
+        return 'guard-spurious: AttackAttempt reported although the reads that returned data (%d of them, %d bytes) exceed no limit' % (len(chunks), len(inbound))
     ph = parse_head(inbound)
     if ph is None or ph[0] == 'MALFORMED':
         if outcome == 'ok':
@@ -320,6 +322,9 @@ def mon_c16(case_line, trace, mline):
         later = b''.join(bytes.fromhex(e[2:]) for o in ops for e in o.events if e.startswith('R:') and e != 'R:eof' and not e.startswith('R:e:'))
         frames, _ = ws.parse_frames(tail + later)
         reads = [o for o in ops if o.res != 'err:io:wb' and (o.res.startswith('ok:') and o.res[3] in 'TBP' or o.res.startswith('err:') or o.res.startswith('panic'))]
+        tailframes, _ = ws.parse_frames(tail)
+        if tailframes and tailframes[0].complete and tailframes[0].opcode in (1, 2) and tailframes[0].fin and not tailframes[0].masked and ops and ops[0].res == 'err:io:wb':
+            return 'tail-lost: a complete frame arrived in the same read as the end of the response head, yet the first read() answered WouldBlock'
         k = 0
         for fr in frames:
             if not fr.complete or fr.opcode not in (1, 2) or not fr.fin or fr.masked:
